@@ -164,6 +164,20 @@ struct C03
                         if(rs.events[3 * ei + (std::size_t)k].addr_off != want[k]) return fail("entry-position", gl + (k == 0 ? " *(begin()+" : k == 1 ? " begin()[" : " *(end()-1-") + std::to_string(ei) + ") found at offset " + std::to_string(rs.events[3 * ei + (std::size_t)k].addr_off) + ", expected " + std::to_string(want[k]));
                 }
             }
+            if(lv.groups[gi].flat)
+            {
+                // the other forms: *(1 + it), *(it - 1), *(it++), it-- / --it, relational operators, it2 - it1
+                q.sub = G_ITER_FORMS;
+                if(!ra(q, rs, gl + " iterator forms")) return;
+                const std::size_t cnt = g.entries.size();
+                if(rs.events.size() != 5 * cnt) return fail("group-size", "iterator forms over " + gl + " visited " + std::to_string(rs.events.size() / 5) + " entries, wire has " + std::to_string(cnt));
+                static const char* const kForm[5] = {" *(1 + it) -> entry ", " *(it - 1) -> entry ", " *(it++) at entry ", " it-- down to entry ", " --it down to entry "};
+                for(std::size_t ei = 0; ei < cnt; ei++)
+                    for(std::size_t k = 0; k < 5; k++)
+                        if(rs.events[5 * ei + k].addr_off != (long long)g.entries[ei].start) return fail("entry-position", gl + kForm[k] + std::to_string(ei) + " found at offset " + std::to_string(rs.events[5 * ei + k].addr_off) + ", expected " + std::to_string(g.entries[ei].start));
+                if(rs.bits != 0) return fail("iterator-relations", std::to_string(rs.bits) + " of the relational / distance / post-step answers of " + gl + "'s iterators contradict the entry indexes");
+                sim::stats().count("probe.c03.iterator_forms_checked");
+            }
             for(std::size_t ei = 0; ei < g.entries.size() && !res.violation; ei++)
             {
                 auto p2 = path;
